@@ -20,7 +20,8 @@ From Onet Require Overlay.Done Overlay.C06DoneProofs.
 
 (* ---- Part A: flatten to ids, rebuild against the roster ------------------------------------- *)
 
-(* Roster ids pairwise distinct, every node on the roster member recorded in it: the
+(* Roster ids pairwise distinct, every node on the roster member recorded in it, these
+   members have a public key (s_nokey = false; NewTree cannot build a tree otherwise): the
    rebuild returns the same tree id, roster, node ids, structure, child order, servers and
    roster positions, with the aggregate of every subtree recomputed and stored; if the
    sender's aggregates were the computed ones (NewTree, MakeTree), exactly the sender's tree.
@@ -75,7 +76,9 @@ Proof. exact relearn_same. Qed.
 Print Assumptions c06_relearn_same.
 
 (* Through bytes, for ANY codec whose decoder inverts its encoder (hypothesis on
-   network.Marshal / Unmarshal, i.e. protobuf; see C03): Marshal ; NewTreeFromMarshal ... *)
+   network.Marshal / Unmarshal, i.e. protobuf; see C03): Marshal ; NewTreeFromMarshal ...
+   (Corollaries of c06_roundtrip: the codec's inverse IS the hypothesis, so these two add only
+   that the wrappers NewTreeFromMarshal / BinaryUnmarshaler do nothing else to the tree.) *)
 Theorem c06_bytes_roundtrip : forall G gadd B (enc : tmarshal -> B) (dec : B -> option tmarshal),
   (forall m, dec (enc m) = Some m) ->
   forall f06 n2 (t : stree G) ro,
@@ -121,15 +124,25 @@ Proof. exact agg_of_children_perm. Qed.
 Print Assumptions c06_aggregate_order_independent.
 
 (* Malformed or mismatching descriptions.  With the length check (F06) MakeTree is total:
-   a description whose roster id differs, that has no root element, or that places a node
-   on a non-member is refused with an error; any other description yields a tree under the
-   described id over the given roster; it never panics. *)
+   [malformed m ro] = the roster id differs, or there is no root element, or for some node
+   the roster search finds no member or finds a member WITHOUT PUBLIC KEY (the key is
+   optional on the wire; /repo 548f825).  Exactly these descriptions are refused with an
+   error; any other yields a tree under the described id over the given roster; it never
+   panics. *)
 Theorem c06_reject_malformed : forall G gadd n2 m (ro : roster G),
   (TreeMarshalProofs.malformed G m ro = true -> make_tree gadd true n2 m (Some ro) = Err) /\
   (TreeMarshalProofs.malformed G m ro = false -> exists t, make_tree gadd true n2 m (Some ro) = Ok t /\
                                           t_id t = tm_tid m /\ t_ro t = Some ro).
 Proof. exact make_tree_fixed_total. Qed.
 Print Assumptions c06_reject_malformed.
+
+(* a member without key: refused when a node is placed on it, harmless otherwise *)
+Theorem c06_keyless_member_refused :
+  TreeMarshalProofs.malformed nat (TM 0 9 0 7 [TM 100 0 1 0 [TM 101 0 3 0 []]]) nokey_ro = true /\
+  make_tree Nat.add false false (TM 0 9 0 7 [TM 100 0 1 0 [TM 101 0 3 0 []]]) (Some nokey_ro) = Err /\
+  exists t, make_tree Nat.add false false (TM 0 9 0 7 [TM 100 0 1 0 [TM 101 0 2 0 []]]) (Some nokey_ro) = Ok t.
+Proof. exact keyless_member_refused. Qed.
+Print Assumptions c06_keyless_member_refused.
 
 (* The code as it is behaves identically on every description that has a root element and
    panics on the others when the roster id matches (F06) ... *)
@@ -152,9 +165,12 @@ Theorem c06_missing_roster_refuted :
 Proof. exact nil_roster_crashes. Qed.
 Print Assumptions c06_missing_roster_refuted.
 
-(* The boolean checker that ./check evaluates on the implementation's observations accepts
-   whatever the repaired model answers, for every description and roster; the pinned model
-   fails it exactly on root-less descriptions naming the right roster, with clause 2. *)
+(* Model-passes-checker, for ONE case kind (CMake: a description rebuilt against a roster;
+   clauses 2, 3, 10): the boolean checker that ./check evaluates on the implementation's
+   observations accepts whatever the repaired model answers, for every description and roster;
+   the pinned model fails it exactly on root-less descriptions naming the right roster, with
+   clause 2.  This is not a proof that the checker expresses the property text: [malformed]
+   and [describes] are the checker's own reading of "malformed" and "the same tree". *)
 Theorem c06_checker_accepts_repaired_model : forall n2 m ro goeq,
   check (CMake m (Some ro) (obs_of (make_tree Z.add true n2 m (Some ro)) goeq)) = [].
 Proof. exact repaired_model_passes_checker. Qed.
@@ -172,7 +188,12 @@ Print Assumptions c06_checker_on_pinned_model.
    present), or has a description waiting for its roster, only if this server registered
    that tree itself or SENT a request for it earlier in the history ([asked] does not count
    a message whose tree request could not be sent: after a failed send the server is asking
-   nobody, and the id is not left marked as requested). *)
+   nobody, and the id is not left marked as requested).
+   NOTE the reach of this statement: [asked ops] ranges over the WHOLE past. It excludes trees
+   nobody here ever asked for; it does not exclude that a tree asked for once is stored again
+   after it was answered and released (known finding C06-N3) -- that is what the per-step
+   theorems c06_peer_never_replaces / c06_two_sections_never_replace and clauses 5, 8, 9 of
+   the checker are about. *)
 Theorem c06_only_solicited : forall G gadd fx ops (s : cst G) oc,
   run gadd fx init ops = (s, oc) ->
   (forall tid, tree_state s tid <> Absent -> In tid (asked ops)) /\
@@ -197,16 +218,37 @@ Theorem c06_peer_never_replaces : forall G gadd fx (s : cst G) (o : op G) s' out
 Proof. exact peer_never_replaces. Qed.
 Print Assumptions c06_peer_never_replaces.
 
-(* The same through the checker that ./check runs on observed histories: snapshots taken
-   from the repaired model before and after ANY peer message, for any set U of watched tree
-   ids, pass clause 5 ("a peer message never replaces a present tree"); the pinned model's
-   overwrite witness fails exactly that clause. *)
+(* Model-passes-checker for clause 5 only ("a peer message never replaces a present tree"):
+   snapshots taken from the repaired model before and after ANY peer message, for any set U of
+   watched tree ids, satisfy [clause5_ok]; [check_step] reports clause 5 exactly when
+   [clause5_ok] fails on a peer's step (c06_checker_clause5_is_clause5_ok), so the repaired
+   model is never reported with clause 5; the pinned model's overwrite witness is.
+   The repaired model does NOT pass the whole history checker: on the late-roster history it
+   is itself reported with clause 8 (c06_checker_reports_residual_on_repaired_model = N3). *)
 Theorem c06_checker_clause5_on_repaired_model : forall fx U (s : cst Z) (o : op Z) s' outs oc outs0 oc0,
   fix_n1 fx = true -> is_peer o = true ->
   step Z.add fx s o = (s', outs, oc) ->
   clause5_ok (Some (snap_of U s outs0 oc0)) (snap_of U s' outs oc) = true.
 Proof. exact repaired_model_never_replaces_checked. Qed.
 Print Assumptions c06_checker_clause5_on_repaired_model.
+
+Theorem c06_checker_clause5_is_clause5_ok : forall aw p o n,
+  In 5 (check_step aw p o n) <-> is_peer o = true /\ clause5_ok p n = false.
+Proof. exact check_step_clause5. Qed.
+Print Assumptions c06_checker_clause5_is_clause5_ok.
+
+Theorem c06_checker_never_reports_clause5_on_repaired_model :
+  forall fx U (s : cst Z) (o : op Z) s' outs oc outs0 oc0 aw,
+  fix_n1 fx = true ->
+  step Z.add fx s o = (s', outs, oc) ->
+  ~ In 5 (check_step aw (Some (snap_of U s outs0 oc0)) o (snap_of U s' outs oc)).
+Proof. exact repaired_model_never_reports_clause5. Qed.
+Print Assumptions c06_checker_never_reports_clause5_on_repaired_model.
+
+Theorem c06_checker_reports_residual_on_repaired_model :
+  check (CHist z_late_roster_ops (model_snaps [9] repaired init z_late_roster_ops)) = [8].
+Proof. exact repaired_model_fails_clause8_on_late_roster. Qed.
+Print Assumptions c06_checker_reports_residual_on_repaired_model.
 
 Theorem c06_checker_clause5_on_pinned_model :
   let s := fst (run Z.add pinned init [LRegister z_t]) in
@@ -250,7 +292,10 @@ Theorem c06_witnesses_repaired :
 Proof. exact (conj overwrite_repaired stale_repaired). Qed.
 Print Assumptions c06_witnesses_repaired.
 
-(* A response touches nothing but the id its description names: a request for X answered
+(* (The next statement, c06_incomplete_response_ignored and c06_unsolicited_arrival_ignored
+   are direct unfoldings of the model -- remarks recorded because the property text names
+   these cases, not results.)
+   A response touches nothing but the id its description names: a request for X answered
    with a description of Y leaves X requested (and stores Y only if Y is itself awaited).
    NOT checked by the code, and not by the model: that the content matches the id -- the id
    is a field of the message; a peer that answers with another tree under the requested id
@@ -334,8 +379,9 @@ Proof. exact keyed_from_init. Qed.
 Print Assumptions c06_store_keyed_by_tree_id.
 
 (* The same "only solicited" rule over the concurrent transition system of C11
-   (Overlay/Done.v: message threads, local runs, done-declarations, timer goroutines, one
-   action = one critical section), for every interleaving and every variant: an id is
+   (Overlay/Done.v: message threads, local runs, done-declarations, timer goroutines; its
+   TreeArrive action merges the test and the store of handleSendTree, see Part C for the two
+   sections apart), for every interleaving and every variant: an id is
    requested or present only if a local registration or a tree request for it came earlier,
    and a tree response for an absent id is ignored. *)
 Theorem c06_only_solicited_interleaved : forall fx acts s i,
